@@ -369,14 +369,16 @@ static void e2e_case(Out &o, Gen &G, int method, int q, int n_target, bool float
   }
   std::unique_ptr<PointCloud> geo(mesh ? new Mesh() : new PointCloud());
   geo->set_num_points((uint32_t)n);
-  GeometryAttribute ga;
-  ga.Init(GeometryAttribute::POSITION, nullptr, 3, DT_FLOAT32, false, sizeof(float) * 3, 0);
-  int pid = geo->AddAttribute(ga, true, (uint32_t)n);
-  for (int i = 0; i < n; i++) geo->attribute(pid)->SetAttributeValue(AttributeValueIndex((uint32_t)i), &pos[(size_t)i * 3]);
-  GeometryAttribute gn;
-  gn.Init(GeometryAttribute::NORMAL, nullptr, 3, DT_FLOAT32, false, sizeof(float) * 3, 0);
-  int nid = geo->AddAttribute(gn, !explicit_map, (uint32_t)m);
-  for (int i = 0; i < m; i++) geo->attribute(nid)->SetAttributeValue(AttributeValueIndex((uint32_t)i), &nrm[(size_t)i * 3]);
+  // the NORMAL attribute is added before the POSITION attribute in a third of the cases (attribute order is the caller's choice;
+  // the coders initialise their per-attribute controllers in that order, parents included)
+  const bool normal_first = r.chance(33);
+  int pid = -1, nid = -1;
+  for (int step = 0; step < 2; step++) {
+    if ((step == 0) == normal_first) { GeometryAttribute gn; gn.Init(GeometryAttribute::NORMAL, nullptr, 3, DT_FLOAT32, false, sizeof(float) * 3, 0); nid = geo->AddAttribute(gn, !explicit_map, (uint32_t)m);
+      for (int i = 0; i < m; i++) geo->attribute(nid)->SetAttributeValue(AttributeValueIndex((uint32_t)i), &nrm[(size_t)i * 3]); }
+    else { GeometryAttribute ga; ga.Init(GeometryAttribute::POSITION, nullptr, 3, DT_FLOAT32, false, sizeof(float) * 3, 0); pid = geo->AddAttribute(ga, true, (uint32_t)n);
+      for (int i = 0; i < n; i++) geo->attribute(pid)->SetAttributeValue(AttributeValueIndex((uint32_t)i), &pos[(size_t)i * 3]); }
+  }
   if (explicit_map) { geo->attribute(nid)->SetExplicitMapping(n); for (int i = 0; i < n; i++) geo->attribute(nid)->SetPointMapEntry(PointIndex(i), AttributeValueIndex((uint32_t)(i % m))); }
   if (mesh) {
     Mesh *me = static_cast<Mesh *>(geo.get());
@@ -404,7 +406,7 @@ static void e2e_case(Out &o, Gen &G, int method, int q, int n_target, bool float
   if (pred == 1) enc.SetAttributePredictionScheme(GeometryAttribute::NORMAL, PREDICTION_DIFFERENCE);
   if (pred == 2) enc.SetAttributePredictionScheme(GeometryAttribute::NORMAL, MESH_PREDICTION_GEOMETRIC_NORMAL);
   std::string id = std::string(method_name(method)) + " speed=" + S(speed) + " q=" + S(q) + " posq=" + S(pos_q) + " pred=" + S(pred) +
-                   " n=" + S(n) + " m=" + S(m) + (explicit_map ? " mapped" : "") + (curtain ? " curtain" : "");
+                   " n=" + S(n) + " m=" + S(m) + (explicit_map ? " mapped" : "") + (curtain ? " curtain" : "") + (normal_first ? " normal-first" : "");
   EncoderBuffer eb; Status st;
   switch (method) {
     case M_PC_SEQ: enc.SetEncodingMethod(POINT_CLOUD_SEQUENTIAL_ENCODING); st = enc.EncodePointCloudToBuffer(*geo, &eb); break;
